@@ -61,3 +61,23 @@ Theorem C10_order_independent : forall s st l l',
   scan s st None l = scan s st None l'.
 Proof. exact order_independent. Qed.
 Print Assumptions C10_order_independent.
+
+(* base entries followed by delta entries (bundle_entries) *)
+Theorem C10_delta_silent : forall s st base delta,
+  (forall e, In e delta -> e_serial e <> s) ->
+  scan s st None (base ++ delta) = scan s st None base.
+Proof. exact delta_silent. Qed.
+Print Assumptions C10_delta_silent.
+
+Theorem C10_delta_permanent_revokes : forall s st base delta,
+  (forall e, In e (base ++ delta) -> e_serial e = s -> bad e = false) ->
+  (exists e, In e delta /\ e_serial e = s /\ counts st e = true /\ permanent e = true) ->
+  scan s st None (base ++ delta) = ERevoked.
+Proof. exact delta_permanent_revokes. Qed.
+Print Assumptions C10_delta_permanent_revokes.
+
+Theorem C10_split_bad_never_ok : forall s st base delta,
+  (exists e, (In e base \/ In e delta) /\ e_serial e = s /\ bad e = true) ->
+  scan s st None (base ++ delta) <> EOk.
+Proof. exact split_bad_never_ok. Qed.
+Print Assumptions C10_split_bad_never_ok.
